@@ -355,21 +355,24 @@ func configVariablesFlow(c *an.Ctx, rule string) {
 	}
 	if bfd != nil {
 		good := false
-		an.EachInstr(bfd, func(in ssa.Instruction) {
-			st, ok := in.(*ssa.Store)
-			if !ok {
-				return
-			}
-			fa, ok := st.Addr.(*ssa.FieldAddr)
-			if !ok || an.TypeField(fa) != "Config.Variables" {
-				return
-			}
-			for _, ch := range cfg.Chains(st.Val) {
-				if len(ch) > 0 && ch[len(ch)-1].Label == "map:configDefinition.Variables" {
-					good = true
+		// (in buildFromDefinition or in a helper of the package it calls)
+		for f := range p.Reach([]*ssa.Function{bfd}, func(e an.CallEdge) bool { return e.Kind == an.EdgeCall && an.Outer(e.Callee).Pkg == bfd.Pkg }) {
+			an.EachInstr(f, func(in ssa.Instruction) {
+				st, ok := in.(*ssa.Store)
+				if !ok {
+					return
 				}
-			}
-		})
+				fa, ok := st.Addr.(*ssa.FieldAddr)
+				if !ok || an.TypeField(fa) != "Config.Variables" {
+					return
+				}
+				for _, ch := range cfg.Chains(st.Val) {
+					if len(ch) > 0 && ch[len(ch)-1].Label == "map:configDefinition.Variables" {
+						good = true
+					}
+				}
+			})
+		}
 		c.Check(good, rule, an.Short(bfd)+":Variables", bfd.Pos(), "the definition's variables are merged over the defaults", "buildFromDefinition does not merge the definition's variables into the configuration")
 	}
 }
